@@ -237,6 +237,12 @@ fn generate_e(seed: u64, quick: bool) -> Value {
             }
         }
     }
+    // a program file that starts with an interpreter line: the text `#!...` is not Scheme, and
+    // the file is evaluated exactly as the same text is through the library interface
+    if g.rng.chance(1, 20) {
+        let line = *g.rng.pick(&["#!/usr/bin/env ruschm", "#!ruschm", "#! /usr/local/bin/ruschm -q"]);
+        items.insert(0, json!({"forms": [line], "markers": [], "markers_before_failure": [], "kind": "interpreter-line-first", "fails": true}));
+    }
     // layout and world
     let file_fault = if g.rng.chance(1, 6) {
         *g.rng.pick(&["missing", "directory", "empty", "not-utf8", "truncated"])
